@@ -130,11 +130,15 @@ func (packages CombinedPackage) Lookup(name string) Declaration {
 
 // LookupFunc calls the LookupFunc method of each package in order. As soon as
 // f returns [StopLookup], LookupFunc returns. If the same declaration name is
-// in multiple packages, f is only called with its first occurrence.
+// in multiple packages, f is only called with its first occurrence. As for
+// the Lookup method, a nil declaration is considered as not existent.
 func (packages CombinedPackage) LookupFunc(f LookupFunc) error {
 	var err error
 	names := map[string]struct{}{}
 	w := func(name string, decl Declaration) error {
+		if decl == nil {
+			return nil
+		}
 		if _, ok := names[name]; !ok {
 			err = f(name, decl)
 			names[name] = struct{}{}
